@@ -68,7 +68,10 @@ def universe_of(universe, name, arity):
     pos = universe.get("pos", {}).get(key)
     if pos is not None:
         return [list(map(str, p)) for p in pos]
-    return [list(map(str, universe["default"])) for _ in range(arity)]
+    d = list(map(str, universe["default"]))
+    if arity >= 4 and len(d) > 2:
+        d = d[:2]  # keep the number of instance atoms of wide predicates small (stated bound)
+    return [list(d) for _ in range(arity)]
 
 
 def open_choices(inputs, universe):
